@@ -2,7 +2,7 @@
 from xsvlib.facts import fmt, strip, place_path, walk
 from xsvlib import q
 from . import common as C
-from .store_shared import gc_requests, expiry_tests, frame_base_of, ttl_time_payload_base, partition_field, GCTASK
+from .store_shared import gc_requests, expiry_tests, frame_base_of, ttl_time_payload_base, partition_field, GCTASK, clock_fns, reads_clock, rule_clock_freshness
 
 EXPLANATION = ("Who-may-remove rule over all Store::remove call sites; every GCTask::Remove is dominated by the expiry predicate applied to "
                "that same frame's id and its own time TTL; CheckHeadTTL is requested only for a stored head:N frame with that frame's "
@@ -188,10 +188,19 @@ def r4(run):
             run.unrecognised("%s|shape" % p, "expiry predicate does not return a comparison: %s" % fmt(e), pb.sp)
             continue
         rel, l, r = cmp_
+        cf = clock_fns(run)
+        # a `now` parameter counts as the clock when every call site passes a clock reading
+        now_args = set()
+        for (cb, cc) in C.callers_of(run.facts, p):
+            for i, a in enumerate(cc.arg_exprs()):
+                if reads_clock(run, a, cf) or any(y[0] == "field" and y[1][0] == "env" and "now" in str(y[2]) for y in walk(a)):
+                    now_args.add(i + 1)
         def side(x):
             s = set()
             for y in walk(x):
-                if y[0] == "call" and y[1].fn == "std::time::SystemTime::now":
+                if y[0] == "call" and (y[1].fn == "std::time::SystemTime::now" or y[1].fn in cf):
+                    s.add("now")
+                if y[0] == "arg" and y[1] in now_args:
                     s.add("now")
                 if y[0] == "call" and y[1].fn == "scru128::id::Scru128Id::timestamp":
                     s.add("created")
@@ -203,7 +212,23 @@ def r4(run):
             rel, l, r, sl, sr = q.SWAP[rel], r, l, sr, sl
         ok_rel = sl == {"now"} and sr == {"created", "ttl"} and rel == "ge"
         run.ob("%s|relation" % p, ok_rel, pb.sp, "expired <=> now >= created + ttl  (got: %s %s %s)" % (sorted(sl), rel, sorted(sr)), reason="expiry-relation")
-        ul, ur = unit_of(l), unit_of(r)
+        def unit_deep(x, depth=0):
+            u = set(unit_of(x))
+            for y in walk(x):
+                if y[0] == "call" and y[1].fn in cf and depth < 3:
+                    fb = run.facts.body(y[1].fn)
+                    if fb is not None:
+                        for (rb, re_, raw) in fb.return_defs():
+                            u |= unit_deep(re_, depth + 1)
+                if y[0] == "arg" and y[1] in now_args and depth < 3:
+                    for (cb, cc) in C.callers_of(run.facts, p):
+                        if y[1] - 1 < len(cc.args):
+                            u |= unit_deep(cc.arg(y[1] - 1), depth + 1)
+                if y[0] == "field" and y[1][0] == "env" and "now" in str(y[2]) and depth < 3:
+                    u.add("ms?")
+            return u
+        ul, ur = unit_deep(l), unit_deep(r)
+        ul.discard("ms?")
         run.ob("%s|units" % p, ul == {"ms"} and ur == {"ms"}, pb.sp, "all three quantities are in milliseconds (now: %s, created+ttl: %s)" % (sorted(ul), sorted(ur)),
                reason="expiry-units")
         adds = [y for y in walk(r) if (y[0] == "call" and y[1].fn.endswith("saturating_add")) or (y[0] == "bin" and y[1].startswith("Add"))]
@@ -217,4 +242,5 @@ RULES = [
     ("R-C08-2", "head GC is requested only by a successfully stored head:N frame with that frame's own context, topic and N", r2),
     ("R-C08-3", "the head-GC scan covers exactly prefix(ctx, topic, 0x00), newest first, skipping exactly keep; removed ids come only from that scan", r3),
     ("R-C08-4", "expiry predicate: now_ms >= id.timestamp_ms + ttl.as_millis (units and relation)", r4),
+    ("R-C08-5", "every expiry decision uses a clock reading taken for that decision (not hoisted out of the scan)", rule_clock_freshness),
 ]
